@@ -80,6 +80,11 @@ CLAIMS = {
    text="Decides that the escape writer and the escape reader agree as tables: each named escape is read back as the rune it was written for, the number of hex digits emitted after \\x and \\u on each path (from the value interval and padding) equals the fixed width the reader consumes, every bare-backslash escape is returned unchanged by the reader's default arm under every option set, and every printable ASCII character the parser classifies as special is in meta (R-CODEC); Escape cannot return without having escaped every rune (R-ESCALL); a byte offset from a string search never becomes a rune position or the parser position (R-UNITS). It does NOT decide that ^Escape(s)$ matches exactly s — that needs the parser and the engine.",
    note="Trusted: ASCII printable range 0x20..0x7E; padding idioms recognised: `if len(s) == 1 { write '0' }` and strings.Repeat(\"0\", W-len(s)) — an unrecognised idiom is reported as a width mismatch rather than ignored.",
    ref="DESIGN.md §4 C19"),
+ "C20": dict(
+   technique="static analysis: observer/transformer contract on CharSet (shared with C16), parameter pass-through, presence of the ASCII test on every construction path of an ASCII-only search (call-graph closure), entry-block dominance in reduce, same-callee check in refmatch",
+   text="Decides structural preconditions of case-insensitive matching: case equivalences and lowercasing reach a class's subtraction and nothing that inspects a class ignores it (R-SUB, R-CASERECUR); callers of GetSetChars honour negation (R-NEGCHARS); the ASCII-only ignore-case search helpers are only reachable for needles tested to be ASCII (R-ASCIIFOLD); reduce() clears IgnoreCase on everything except backreferences before any rewrite, so Ref is the only instruction compared case-insensitively at run time, and refmatch folds both sides with the same function (R-CIREF). It does NOT decide the invariance itself (fold tables, the parser's expansion of literals into per-letter sets, prefix extraction).",
+   note="Trusted: R-ASCIIFOLD checks presence of the ASCII test in the function or in every constructing caller, not dominance (the test is correlated with the ignoreCase flag in ways dominance cannot express).",
+   ref="DESIGN.md §4 C20"),
 }
 
 NOT_APPLICABLE = {
